@@ -488,11 +488,13 @@ func (s *scope) createInstance(descriptor *Descriptor) (any, error) {
 				regKey = reg.Key
 			}
 
-			if reg.Type == descriptor.Type && regKey == descriptor.Key {
-				primaryService = value
+			// Each field is stored under the descriptor registered for it
+			regDescriptor := descriptor.sibling(func(d *Descriptor) bool {
+				return d.resultFieldName == reg.Name
+			})
+			if regDescriptor == nil {
+				regDescriptor = s.rootProvider.findDescriptor(reg.Type, regKey)
 			}
-
-			regDescriptor := s.rootProvider.findDescriptor(reg.Type, regKey)
 			if regDescriptor == nil {
 				return nil, &ResolutionError{
 					ServiceType: reg.Type,
@@ -501,10 +503,15 @@ func (s *scope) createInstance(descriptor *Descriptor) (any, error) {
 				}
 			}
 
+			if regDescriptor == descriptor ||
+				(descriptor.family == nil && reg.Type == descriptor.Type && regKey == descriptor.Key) {
+				primaryService = value
+			}
+
 			key := instanceKey{
-				Type:  reg.Type,
-				Key:   regKey,
-				Group: reg.Group,
+				Type:  regDescriptor.Type,
+				Key:   regDescriptor.Key,
+				Group: regDescriptor.Group,
 			}
 
 			s.setInstance(regDescriptor, key, value)
@@ -529,8 +536,13 @@ func (s *scope) createInstance(descriptor *Descriptor) (any, error) {
 
 			value := results[ret.Index].Interface()
 
-			// Find the descriptor for this return type
-			serviceDescriptor := s.rootProvider.findDescriptor(ret.Type, nil)
+			// Find the descriptor registered for this return value
+			serviceDescriptor := descriptor.sibling(func(d *Descriptor) bool {
+				return d.MultiReturnIndex == ret.Index
+			})
+			if serviceDescriptor == nil {
+				serviceDescriptor = s.rootProvider.findDescriptor(ret.Type, nil)
+			}
 			if serviceDescriptor == nil {
 				return nil, &ResolutionError{
 					ServiceType: ret.Type,
